@@ -235,6 +235,7 @@ class RunAnalysis:
                     fail("C20", f"at quiescence async cache {self.spec[fi]['name']} is inconsistent after calls that suspended in their body and stored on resumption "
                                 f"while other threads operated on it: {len(entries)} entries (limit {self.spec[fi]['limit']}), {len(bad)} key(s) in only one of store / queue "
                                 f"(schedule [{sched}])", replay)
+            prog_ops = {op.split(" ")[0] for prog in self.programs for op in prog if op}
             for lbl, d in dumps.items():
                 if d is None:
                     continue
@@ -245,6 +246,13 @@ class RunAnalysis:
                 if untracked:
                     ev("untracked-key")
                     fail("C18", f"at quiescence cache {s['name']} stores keys the eviction queue does not track: {len(untracked)} of {len(entries)} (schedule [{sched}])", replay)
+                    # capacity bookkeeping after invalidations that raced with calls (C13: conditional; C12: group / name)
+                    if prog_ops & {"with", "allwith"}:
+                        fail("C13", f"after conditional invalidations racing with calls, cache {s['name']} holds {len(untracked)} entr{'y' if len(untracked) == 1 else 'ies'} that no queue slot "
+                                    f"tracks: they can never be evicted and eat capacity for good (schedule [{sched}])", replay)
+                    if prog_ops & {"tag", "event", "dep", "cache"}:
+                        fail("C12", f"after group / name invalidations racing with calls, cache {s['name']} holds {len(untracked)} entr{'y' if len(untracked) == 1 else 'ies'} no queue slot tracks "
+                                    f"(an entry survived or was resurrected around the invalidation) (schedule [{sched}])", replay)
                 if s["limit"] is not None and len(entries) > s["limit"]:
                     fail("C18", f"at quiescence cache {s['name']} holds {len(entries)} entries with limit {s['limit']} (schedule [{sched}])", replay)
                 if s["maxmem"] is not None and s["use_mem"] and sum(e[1] for e in entries.values()) > s["maxmem"]:
